@@ -99,11 +99,11 @@ Lemma ex_tref path : In path [[b "Foo"]; [b "Foo"; b "Bar"]; [b "Kind"]] ->
   wf_tref (dfile_symtab ex_imp ex_file) pkg_t pkg_t path.
 Proof.
   intro H. repeat (destruct H as [<-|H]); try destruct H.
-  - split; [discriminate|]. split; [|split; [vm_compute; tauto|repeat constructor; vm_compute; reflexivity]].
+  - split; [discriminate|]. split; [|vm_compute; tauto].
     split; [intros _ k Hk; destruct k as [|[|k]]; cbn in Hk; try lia; vm_compute; reflexivity|intro E; vm_compute in E; discriminate E].
-  - split; [discriminate|]. split; [|split; [vm_compute; tauto|repeat constructor; vm_compute; reflexivity]].
+  - split; [discriminate|]. split; [|vm_compute; tauto].
     split; [intros _ k Hk; destruct k as [|[|[|k]]]; cbn in Hk; try lia; vm_compute; reflexivity|intro E; vm_compute in E; discriminate E].
-  - split; [discriminate|]. split; [|split; [vm_compute; tauto|repeat constructor; vm_compute; reflexivity]].
+  - split; [discriminate|]. split; [|vm_compute; tauto].
     split; [intros _ k Hk; destruct k as [|[|k]]; cbn in Hk; try lia; vm_compute; reflexivity|intro E; vm_compute in E; discriminate E].
 Qed.
 
